@@ -401,7 +401,7 @@ def gen_random_scenario(rnd, sizes):
         roots.append(list(roots[0]))                                    # the same root twice
     elif r < 0.28:
         # a root that is a package directory of another root (sub-directory as root)
-        subs = [k for k, v in t['r0'].items() if isinstance(v, dict)]
+        subs = [k for k, v in t['r0'].items() if isinstance(v, dict) and '.' not in k]    # roots have regular names
         if subs:
             roots.insert(rnd.randrange(len(roots) + 1), ['r0', rnd.choice(subs)])
     if rnd.random() < 0.5:
